@@ -507,12 +507,14 @@ func (f *Frame) convert(x *ssa.Convert, st *State) Value {
 	case okf && okt:
 		return Value{T: bvResize(f.term(v), wf, wt, sf), Ty: to}
 	case isStringType(to) && isByteSlice(from):
-		// string(b): fresh string with same length and bytes
-		s := u.sc.fresh("str", SStr)
+		// string(b): a string with the same length and bytes; a function of the current
+		// contents, so that converting unchanged bytes twice yields equal strings
 		sv := f.term(v)
-		u.assume(st.reach, mkEq(mk(bvSort(64), "strlen", s), sLen(sv)))
 		region, es := u.elemRegion(types.Typ[types.Byte])
 		row := mk(arraySort(bvSort(64), es), "select", u.heapGet(st.heap, region), sBase(sv))
+		u.sc.declareFun("bytes2str", []string{arraySort(bvSort(64), es), bvSort(64), bvSort(64)}, SStr)
+		s := u.freshDef("str", mk(SStr, "bytes2str", row, sOff(sv), sLen(sv)))
+		u.assume(st.reach, mkEq(mk(bvSort(64), "strlen", s), sLen(sv)))
 		u.assume(st.reach, Term{fmt.Sprintf("(forall ((i (_ BitVec 64))) (! (=> (and (bvsle (_ bv0 64) i) (bvslt i %s)) (= (strat %s i) (select %s (bvadd %s i)))) :pattern ((strat %s i))))",
 			sLen(sv).S, s.S, row.S, sOff(sv).S, s.S), SBool})
 		return Value{T: s, Ty: to}
